@@ -9,6 +9,7 @@
    blanks and digits inside the residue part, consensus lines between blocks) rebuilds for every sequence the
    normalised concatenation of its pieces; two layouts of the same rows are read as the same records.
    The same holds for the body of an MSF file read into the records its header declared (C04_msf_body_any_layout).
+   (f) an alignment split over two FASTA inputs gives the records of the first followed by those of the second.
    MSF headers of foreign writers, format sniffing of foreign files and the splitting over several inputs are decided by
    the correspondence of the reader model with msa_io.c on generated presentations and by comparing
    the implementation's results across presentations (DESIGN C04). *)
@@ -106,6 +107,25 @@ Theorem C04_msf_body_any_layout : forall (rows : list lrow) k seps lead h0,
                           rr_res r = filter isalpha (List.concat (snd row))) recs rows.
 Proof. intros rows k seps lead h0 N P S L. exact (msf_body_layout rows k seps N P S lead h0 L). Qed.
 Print Assumptions C04_msf_body_any_layout.
+
+(* (f) an alignment split over two FASTA inputs is read as the records of the first followed by those of the second -
+   the same records as from the single file - provided the two files are detected as the same (defined) kind; whatever
+   histograms h1, h2 the two reads produce *)
+Theorem C04_split_over_two_inputs : forall rows1 rows2,
+  (2 <= length rows1)%nat -> rows2 <> [] ->
+  Forall (fun nr => name_ok (fst nr) /\ good_row (snd nr)) rows1 -> Forall (fun nr => name_ok (fst nr) /\ good_row (snd nr)) rows2 ->
+  forall h1 h2, read_one (write_fasta rows1) = Some (Some (mkM (map rec_of rows1) h1)) ->
+                read_one (write_fasta rows2) = Some (Some (mkM (map rec_of rows2) h2)) ->
+  biotype_of ALN_BIOTYPE_UNDEF h1 <> ALN_BIOTYPE_UNDEF ->
+  biotype_of ALN_BIOTYPE_UNDEF h2 = biotype_of ALN_BIOTYPE_UNDEF h1 ->
+  exists m, read_inputs [write_fasta rows1; write_fasta rows2] = ROk m /\
+            records_of (i_recs m) = residues_of (rows1 ++ rows2).
+Proof.
+  intros rows1 rows2 L1 N2 H1 H2 h1 h2 R1 R2 B1 B2.
+  destruct (read_two_fasta rows1 rows2 L1 N2 H1 H2 h1 h2 R1 R2 B1 B2) as (m & E & I). exists m. split; [exact E|].
+  rewrite I. apply records_of_rec_of. apply Forall_app. split; [eapply Forall_impl; [|exact H1]|eapply Forall_impl; [|exact H2]]; cbn beta; tauto.
+Qed.
+Print Assumptions C04_split_over_two_inputs.
 
 (* non-vacuity: two layouts of the same two rows - blocks of 3+2 columns with a consensus line, and one block with
    blanks and digits inside *)
